@@ -29,6 +29,7 @@ struct Gen<'a, R: RoleType, T: IsPacketId> {
     force_peer_tam: Option<u16>, // the Topic Alias Maximum the PEER announces in the next handshake
     boundary: bool,              // publishes are sized around the peer's Maximum Packet Size
     plain_pub: bool,             // publishes carry no manual alias / extra properties
+    force_sp: Option<bool>,      // Session Present flag of the next CONNACK (either direction)
 }
 
 impl<'a, R: RoleType, T: IsPacketId> Gen<'a, R, T> {
@@ -157,7 +158,7 @@ impl<'a, R: RoleType, T: IsPacketId> Gen<'a, R, T> {
             let ka = self.ka();
             self.op(format!("send {} {}", v, hex(&w_connect(v, clean, ka, b"cid", &ps))));
             if force_ok || self.rng.chance(9, 10) {
-                let sp = !clean && (force_ok || self.rng.chance(2, 3));
+                let sp = self.force_sp.unwrap_or(!clean && (force_ok || self.rng.chance(2, 3)));
                 let rc = if force_ok || self.rng.chance(9, 10) { 0 } else { *self.rng.pick(&[1u8, 2, 5, 0x80, 0x87]) };
                 let ps = self.conn_props(true);
                 self.peer_mps = ps.iter().find_map(|p| if let P::U32(39, m) = p { Some(*m) } else { None });
@@ -185,7 +186,7 @@ impl<'a, R: RoleType, T: IsPacketId> Gen<'a, R, T> {
             }
             if force_ok || self.rng.chance(9, 10) {
                 let v = self.ver();
-                let sp = !clean && (force_ok || self.rng.chance(2, 3));
+                let sp = self.force_sp.unwrap_or(!clean && (force_ok || self.rng.chance(2, 3)));
                 let rc = if force_ok || self.rng.chance(9, 10) { 0 } else { *self.rng.pick(&[1u8, 2, 5, 0x80, 0x87]) };
                 let mut ps = self.conn_props(true);
                 if let Some(rm) = self.force_own_rm {
@@ -803,6 +804,7 @@ fn walk<R: RoleType, T: IsPacketId>(role: &'static str, ver: u8, steps: usize, r
         force_peer_tam: None,
         boundary: false,
         plain_pub: false,
+        force_sp: None,
     };
     // options
     for f in ["off", "apr", "aping", "amap", "arep"] {
@@ -1081,7 +1083,7 @@ fn reuse_trial<R: RoleType, T: IsPacketId>(role: &'static str, ver: u8, steps: u
     let focus = rng.below(6) as u8;
     let mut g = Gen::<R, T> {
         s: Sess::new(ver), rng, role, my_ids: vec![], inflight: vec![], rel_wait: vec![], peer_pubs: vec![], subs: vec![],
-        peer_mps: None, focus, legal: true, started: false, force_clean: None, force_ok: false, force_persist: false, force_ska: None, force_own_rm: None, force_peer_mps: None, force_peer_tam: None, boundary: false, plain_pub: false,
+        peer_mps: None, focus, legal: true, started: false, force_clean: None, force_ok: false, force_persist: false, force_ska: None, force_own_rm: None, force_peer_mps: None, force_peer_tam: None, boundary: false, plain_pub: false, force_sp: None,
     };
     for f in ["off", "apr", "aping", "amap", "arep"] {
         if g.rng.chance(2, 5) {
@@ -1136,30 +1138,31 @@ fn reuse_trial<R: RoleType, T: IsPacketId>(role: &'static str, ver: u8, steps: u
     g.rel_wait.clear();
     g.peer_pubs.clear();
     g.subs.clear();
-    g.force_clean = Some(true);
+    // a new session starts with a clean start, or with a CONNACK reporting "session not present"
+    let by_clean = g.rng.chance(1, 2);
+    g.force_clean = Some(by_clean);
+    g.force_sp = Some(false);
     g.force_ok = true;
     g.handshake();
     g.force_clean = None;
+    g.force_sp = None;
     g.force_ok = false;
-    // the script must really have started a new session (an undetermined object acting as a
-    // client cannot; a CONNECT may be refused): otherwise this is an ordinary trace
-    let started_new = g.s.out_lines[i0..].iter().any(|l| {
+    // the reused object normally starts the new session here; if it does not (it refused the
+    // CONNECT, say), the fresh object below decides whether the script starts one
+    let is_start = |l: &String| {
         let f: Vec<&str> = l.split(" | ").collect();
-        f.len() == 5 && (f[2].contains("send{k=1,") || f[2].contains("recv{k=1,")) && f[2].contains(",cl=1,")
-    }) && g.status() != "D";
-    if !started_new {
-        writeln!(out, "T conn {name} role={role} pw={} ver={ver} legal=1", g.s.pw).unwrap();
-        for l in &g.s.out_lines {
-            writeln!(out, "{l}").unwrap();
+        f.len() == 5
+            && (((f[2].contains("send{k=1,") || f[2].contains("recv{k=1,")) && f[2].contains(",cl=1,"))
+                || ((f[2].contains("send{k=2,") || f[2].contains("recv{k=2,")) && f[2].contains(",rc=0,") && f[2].contains(",sp=0,")))
+    };
+    let started_new = g.s.out_lines[i0..].iter().any(is_start) && g.status() == "C";
+    if started_new {
+        for _ in 0..(steps / 2).max(6) {
+            if g.s.dead {
+                break;
+            }
+            g.step();
         }
-        writeln!(out, "END").unwrap();
-        return g.s.dead;
-    }
-    for _ in 0..(steps / 2).max(6) {
-        if g.s.dead {
-            break;
-        }
-        g.step();
     }
     let a_lines: Vec<String> = g.s.out_lines[i0..].to_vec();
     let s_ops = ops_of(&a_lines);
@@ -1181,10 +1184,17 @@ fn reuse_trial<R: RoleType, T: IsPacketId>(role: &'static str, ver: u8, steps: u
             break;
         }
     }
+    // the comparison begins with the call that starts the new session on the FRESH object: the
+    // clean-start CONNECT, or the CONNACK reporting "session not present" (until then the old
+    // session legitimately still exists on the reused object).  No such call: an ordinary trace.
+    let k0 = match b.out_lines[j0..].iter().position(is_start) {
+        Some(k) if b.out_lines[j0..].iter().any(|l| l.contains(" st=C ")) => k,
+        _ => return g.s.dead || b.dead,
+    };
     writeln!(out, "T conn {name}-fresh role={role} pw={pw} ver={ver} legal=1").unwrap();
     for (j, l) in b.out_lines.iter().enumerate() {
         writeln!(out, "{l}").unwrap();
-        if j >= j0 {
+        if j >= j0 + k0 {
             let f: Vec<&str> = a_lines.get(j - j0).map(|x| x.split(" | ").collect()).unwrap_or_default();
             if f.len() == 5 {
                 writeln!(out, "Y {} | {} | {} | {}", f[0].strip_prefix("X ").unwrap_or(f[0]), f[2], f[3], f[4]).unwrap();
@@ -1206,7 +1216,7 @@ fn reuse_trial<R: RoleType, T: IsPacketId>(role: &'static str, ver: u8, steps: u
 fn restore_trial<R: RoleType, T: IsPacketId>(role: &'static str, ver: u8, steps: usize, rng: &mut Rng, name: &str, out: &mut dyn Write) -> bool {
     let mut g = Gen::<R, T> {
         s: Sess::new(ver), rng, role, my_ids: vec![], inflight: vec![], rel_wait: vec![], peer_pubs: vec![], subs: vec![],
-        peer_mps: None, focus: 1, legal: true, started: false, force_clean: None, force_ok: false, force_persist: false, force_ska: None, force_own_rm: None, force_peer_mps: None, force_peer_tam: None, boundary: false, plain_pub: false,
+        peer_mps: None, focus: 1, legal: true, started: false, force_clean: None, force_ok: false, force_persist: false, force_ska: None, force_own_rm: None, force_peer_mps: None, force_peer_tam: None, boundary: false, plain_pub: false, force_sp: None,
     };
     g.op("set apr 1".into());
     for f in ["off", "aping", "amap", "arep"] {
